@@ -202,9 +202,9 @@ AXIS_EXCEPTIONS = {
 }
 
 
-def check_ell(run, A):
+def check_ell(run, A, only=None):
     n = 0
-    mods = ('pb_bss.extraction.beamformer', 'pb_bss.extraction.beamformer_wrapper', 'pb_bss.math.solve')
+    mods = only or ('pb_bss.extraction.beamformer', 'pb_bss.extraction.beamformer_wrapper', 'pb_bss.math.solve')
     for fn in A.prog.all_funcs():
         if fn.mod.name not in mods or not documented_ellipsis(fn):
             continue
@@ -260,6 +260,9 @@ def check_ell(run, A):
                 run.check(not bad, 'R-ELL', f'{short}: inserted axis {ins[1]} counts from the right', fn.loc(t.node), '',
                           f'`{norm_stmt(t.node)}`: an axis inserted at a position counted from the left of an array documented with leading `...` axes '
                           f'lands elsewhere as soon as a leading axis is present', construct=f'R-ELL::{fn.qual}::axis::newaxis')
+    if only is not None:
+        run.count('literal axis uses in the shared solver functions', n)
+        return
     run.floor('literal axis uses in (..., )-documented beamforming functions', n, 12)
     # phase_correction: accumulate along the frequency axis (-2 of (..., bins, sensors))
     q = B + 'phase_correction'
@@ -547,5 +550,8 @@ def check(run):
     check_dispatch(run, A)
     check_apply(run, A)
     check_ell(run, A)
+    # the wrapper equals the composition of its primitives only if these are functions of their arguments: no cache at module level
+    from . import c20 as _c20
+    _c20.check_module_state(run, A, ('pb_bss.extraction.beamformer', 'pb_bss.math.solve'))
     check_stable_solve(run, A)
     c11.solve_vector_semantics(run, A, B + 'get_mvdr_vector')
